@@ -81,7 +81,9 @@ class Func:
 
 
 class Program:
-    def __init__(self, root=None):
+    def __init__(self, root=None, overrides=None):
+        """overrides: {module short name: source text} analysed instead of the file on disk (in-memory variants for self-validation)"""
+        self.overrides = overrides or {}
         self.root = root or repo_root()
         self.modules = {}      # name -> ast.Module
         self.sources = {}      # name -> text
@@ -98,10 +100,13 @@ class Program:
         h = hashlib.sha256()
         for m in MODULES:
             p = os.path.join(self.root, "fxpmath", m + ".py")
-            try:
-                text = open(p, encoding="utf-8").read()
-            except OSError as e:
-                raise AnalysisError("module missing: %s (%s)" % (p, e))
+            if m in self.overrides:
+                text = self.overrides[m]
+            else:
+                try:
+                    text = open(p, encoding="utf-8").read()
+                except OSError as e:
+                    raise AnalysisError("module missing: %s (%s)" % (p, e))
             try:
                 tree = ast.parse(text, filename=p)
             except SyntaxError as e:
